@@ -89,8 +89,7 @@ func lexPrefix(l *lexer) stateFn {
 			l.pos = Pos(len(l.input))
 			return l.errorf("missing prefix end")
 		}
-	}
-	if strings.HasPrefix(l.input[l.pos:], "_") {
+	} else if strings.HasPrefix(l.input[l.pos:], "_") {
 		l.pos++
 		l.emit(tokenPrefix)
 	}
